@@ -6,7 +6,7 @@ from sxglib import H, unhex
 from bundlelib import read_stage
 import os, subprocess, tempfile, shutil, hashlib, json, base64
 
-THEOREMS = ['C20.pathToURL_injective', 'C20.escapePath_safe', 'C20.unescape_escapePath', 'C03/C04/C05 (bundle round trip / well-formedness / reader)', 'C17.read_write', 'C02.honest_verifies', 'C07.output_layout', 'C06 (signatures section)']
+THEOREMS = ['C20Har.har_sublist / har_headers_clean / har_duplicates_have_variants / har_first_kept / har_bundle_read_back (gen-bundle -har)', 'C20.pathToURL_injective', 'C20.escapePath_safe', 'C20.unescape_escapePath', 'C03/C04/C05 (bundle round trip / well-formedness / reader)', 'C17.read_write', 'C02.honest_verifies', 'C07.output_layout', 'C06 (signatures section)']
 TRUSTED = ['PARTIAL: flag parsing, PEM/PKCS#8 decoding (incl. encrypted keys), http.ServeFile (content sniffing, redirects, Last-Modified), filepath.Walk and the OS are exercised through the real binaries, not modelled',
            'OCSP fetching needs the network: always -ocsp <file>']
 ASSUMPTIONS = ['base URL ends with "/" and file names are valid UTF-8 without NUL or "/"', 'HAR header values are ASCII (DESIGN O7)']
@@ -307,6 +307,99 @@ def sign_bundle_variants_stage(ctx, rng):
         shutil.rmtree(T, ignore_errors=True)
 
 
+def har_model_stage(ctx, rng, thorough, T, B, wfile):
+    """gen-bundle -har against the model of fromhar.go + main (Model/HarWalk.lean `genBundle`, theorems C20Har.har_*): HAR files are built from
+    abstract entry lists; the model is given the same entries (URL String() through net/url on the Go side, bodies as decoded) and predicts
+    `failed` or the exact bytes of the output file; what dump-bundle makes of the file is compared with the reader (both sides)."""
+    GET, POST = 'GET', 'POST'
+    U = 'https://example.com/h/'
+    def ent(url, method=GET, status=200, res=(), req=(('Accept', '*/*'),), body=b'x', b64=None, badb64=False):
+        return dict(url=url, method=method, status=status, res=list(res), req=list(req), body=body, b64=(len(body) % 2 == 1) if b64 is None else b64, badb64=badb64)
+    CT = ('Content-Type', 'text/plain')
+    V = ('Variants', 'Accept-Language;en;fr')
+    VK1, VK2 = ('Variant-Key', 'en'), ('Variant-Key', 'fr')
+    hars = []
+    # 1. filters: method spellings, status edges, pseudo headers, every uncached / stateful name in three letter cases
+    hars.append(('filters', [ent(U + 'a', res=[CT, (':status', '200'), ('Set-Cookie', 'a=b'), ('X-Ok', 'fine')], body=b'alpha'),
+                             ent(U + 'post', method=POST), ent(U + 'lower', method='get'), ent(U + 'head', method='HEAD'), ent(U + 'empty', method=''),
+                             ent(U + 's99', status=99), ent(U + 's100', status=100, body=b''), ent(U + 's999', status=999), ent(U + 's1000', status=1000),
+                             ent(U + 's0', status=0), ent(U + 'sneg', status=-200), ent(U + 'b', res=[CT], body=b'beta!')], U + 'a'))
+    unc = ['Connection', 'Keep-Alive', 'Proxy-Connection', 'Trailer', 'Transfer-Encoding', 'Upgrade', 'Authentication-Control', 'Authentication-Info', 'Clear-Site-Data',
+           'Optional-WWW-Authenticate', 'Proxy-Authenticate', 'Proxy-Authentication-Info', 'Public-Key-Pins', 'Sec-WebSocket-Accept', 'Set-Cookie', 'Set-Cookie2', 'SetProfile',
+           'Strict-Transport-Security', 'WWW-Authenticate', 'Public-Key-Pins-Report-Only']
+    cased = []
+    for i, n in enumerate(unc):
+        cased += [(n, 'v%d' % i), (n.lower(), 'l%d' % i), (n.upper(), 'u%d' % i), (n + 'x', 'near%d' % i), ('X-' + n, 'pre%d' % i)]
+    hars.append(('uncached-names', [ent(U + 'u', res=[CT] + cased, req=[('Cookie', 'c=1'), ('authorization', 'x'), ('Accept', 'a')], body=b'u-body')], U + 'u'))
+    # 2. repeated header names (Add appends), mixed case of the same name, names that are not tokens, empty value, ':'-names in the middle
+    hars.append(('repeats', [ent(U + 'r', res=[('x-a', '1'), ('X-A', '2'), ('X-a', ''), CT, ('content-type', 'text/html'), ('Has Space', 'v'), (':x', 'y'), ('trailing:', 'z'), ('', 'noname')], body=b'rr')], U + 'r'))
+    # 3. the duplicate-URL rule: every pattern of (has Variants?) over two and three entries of one URL, other URLs interleaved; b1 and b2
+    for pat in ('NN', 'VN', 'NV', 'VV', 'VVV', 'VVN', 'NVV', 'VNV'):
+        es = []
+        for i, c in enumerate(pat):
+            es.append(ent(U + 'dup', res=[CT] + ([V, VK1 if i % 2 == 0 else VK2] if c == 'V' else []), body=('rep%d' % i).encode(), b64=False))
+            es.append(ent(U + 'other%d' % i, res=[CT], body=b'o'))
+        hars.append(('dup-' + pat, es, U + 'dup'))
+    # the Variants name in other letter cases is the same header (Add canonicalises), a near-miss name is not
+    hars.append(('dup-case', [ent(U + 'dup', res=[CT, ('variants', 'Accept-Language;en;fr'), VK1], body=b'r0'), ent(U + 'dup', res=[CT, ('VARIANTS', 'Accept-Language;en;fr'), VK2], body=b'r1'),
+                              ent(U + 'dup', res=[CT, ('Variant', 'Accept-Language;en;fr'), VK2], body=b'r2')], U + 'dup'))
+    # two spellings that url.Parse(...).String() maps to one key
+    hars.append(('dup-spelling', [ent('https://example.com/h/sp ace', res=[CT], body=b'first'), ent('https://example.com/h/sp%20ace', res=[CT], body=b'second'), ent('HTTPS://example.com/h/sp%20ace', res=[CT], body=b'third')], 'https://example.com/h/sp%20ace'))
+    # 4. errors abort the run whatever the entry's method / status: unparsable URL, undecodable base64
+    hars.append(('bad-url-dropped-entry', [ent(U + 'ok', res=[CT]), ent('https://exa mple.com/%zz', method=POST)], U + 'ok'))
+    hars.append(('bad-url', [ent(U + 'ok', res=[CT]), ent('http://[::1', res=[CT])], U + 'ok'))
+    hars.append(('bad-base64-dropped-entry', [ent(U + 'ok', res=[CT]), ent(U + 'bad', status=1000, body=b'', b64=True, badb64=True)], U + 'ok'))
+    hars.append(('empty-har', [], U + 'none'))
+    hars.append(('all-dropped', [ent(U + 'p', method=POST)], U + 'p'))
+    # 5. primary URL that is not among the exchanges (Validate), with and without -ignoreErrors; primary naming a dropped entry
+    hars.append(('primary-missing', [ent(U + 'a', res=[CT]), ent(U + 'gone', method=POST)], U + 'gone'))
+    if thorough:
+        for k in range(12):
+            es = [ent(U + rng.choice('abc'), method=rng.choice([GET, GET, GET, POST]), status=rng.choice([200, 200, 404, 99, 301]),
+                      res=[CT] + ([V, VK1] if rng.random() < 0.5 else []), body=rbytes(rng, rng.choice([0, 1, 5, 300]))) for _ in range(rng.randrange(1, 7))]
+            hars.append((f'random-{k}', es, U + 'a'))
+    def to_json(es):
+        out = []
+        for e in es:
+            if e['badb64']: content = {'size': 3, 'mimeType': 'text/plain', 'text': '!!!not-base64', 'encoding': 'base64'}
+            elif e['b64']: content = {'size': len(e['body']), 'mimeType': 'text/plain', 'text': base64.b64encode(e['body']).decode(), 'encoding': 'base64'}
+            else: content = {'size': len(e['body']), 'mimeType': 'text/plain', 'text': e['body'].decode()}
+            out.append({'startedDateTime': '2020-01-01T00:00:00.000Z', 'time': 1, 'cache': {}, 'timings': {'send': 0, 'wait': 0, 'receive': 0},
+                        'request': {'method': e['method'], 'url': e['url'], 'httpVersion': 'HTTP/1.1', 'cookies': [], 'headers': [{'name': n, 'value': v} for n, v in e['req']], 'queryString': [], 'headersSize': -1, 'bodySize': -1},
+                        'response': {'status': e['status'], 'statusText': 'x', 'httpVersion': 'HTTP/1.1', 'cookies': [], 'headers': [{'name': n, 'value': v} for n, v in e['res']],
+                                     'content': content, 'redirectURL': '', 'headersSize': -1, 'bodySize': len(e['body'])}})
+        return json.dumps({'log': {'version': '1.2', 'creator': {'name': 'verif', 'version': '1'}, 'entries': out}}).encode()
+    def keyof(u):       # url.Parse(u).String() by the real net/url
+        r = ctx.go([f'oracle.burl {hexs(u.encode())}'])[0]
+        if not r or r == '0' or not r.startswith('1:'): return None
+        return r.split(':')[4]
+    def nv(l): return '.' if not l else ','.join(f'{hexs(n.encode())}={hexs(v.encode())}' for n, v in l)
+    for hi, (name, es, prim) in enumerate(hars):
+        harp = wfile(f'm{hi}.har', to_json(es))
+        toks = []
+        for e in es:
+            k = keyof(e['url'])
+            toks.append('~'.join([k if k is not None else '!', hexs(e['method'].encode()), str(e['status']), nv(e['req']), nv(e['res']), '!' if e['badb64'] else hexs(e['body'])]))
+        pk = keyof(prim)
+        for ver in ('b1', 'b2'):
+            for ig in ((0, 1) if name in ('primary-missing', 'all-dropped', 'empty-har', 'filters') else (0,)):
+                for with_primary in ((True,) if ver == 'b1' else (True, False)):
+                    outp = os.path.join(T, f'm{hi}-{ver}-{ig}-{int(with_primary)}.wbn')
+                    cmd = [B('gen-bundle'), '-har', harp, '-version', ver, '-o', outp] + (['-primaryURL', prim] if with_primary else []) + (['-ignoreErrors'] if ig else [])
+                    rc, _, err = sh(cmd)
+                    mres = ctx.model([f"c20.har {ver} {pk if with_primary else 'nil'} nil {ig} {' '.join(toks)}".rstrip()])[0] or 'model-failed'
+                    got = 'panic' if b'panic:' in err or b'goroutine ' in err else ('failed' if rc != 0 else 'wrote ' + hexs(open(outp, 'rb').read()) if os.path.exists(outp) else 'exit0-no-file')
+                    exp = ' '.join(mres.split(' ')[:2]) if mres.startswith('wrote ') else mres
+                    op = f'c20.har-model {name} {ver} ignoreErrors={ig} primary={int(with_primary)}'
+                    rec(ctx, op, got if len(got) < 300 or got == exp else got[:120] + '...(' + hashlib.sha256(got.encode()).hexdigest()[:16] + ')',
+                        exp if len(exp) < 300 or got == exp else exp[:120] + '...(' + hashlib.sha256(exp.encode()).hexdigest()[:16] + ')')
+                    if rc == 0 and os.path.exists(outp):
+                        g, m = read_stage(ctx, [hexs(open(outp, 'rb').read())])
+                        rc2, _, _ = sh([B('dump-bundle'), '-i', outp])
+                        rec(ctx, f'c20.har-model-dump-bundle {name} {ver} {ig} {int(with_primary)}', 'accepts' if rc2 == 0 else 'rejects', 'accepts' if (g and g[0] and g[0].startswith('ok ')) else 'rejects')
+
+
+
 def run(ctx):
     rng, thorough = ctx.rng, ctx.tier == 'thorough'
     scratch = tempfile.mkdtemp(prefix='verif-c20-', dir=os.environ.get('TMPDIR', '/tmp'))
@@ -524,6 +617,7 @@ def _run(ctx, rng, thorough, T):
                     u, st, hs, body = e.split('~')
                     got.append((unhex(u).decode(), hashlib.sha256(unhex(body)).hexdigest()))
             rec(ctx, f'c20.har-exchanges {ver}', json.dumps(sorted(got)), json.dumps(sorted(exp_urls)))
+    har_model_stage(ctx, rng, thorough, T, B, wfile)
     # ---------------------------------------------------------------- D2. two signers, the first with a two-certificate chain
     r2 = ctx.go([f'setup.pem ec-pkcs8-p256 {hexs(b"other.example")}'])[0]
     if r2 and r2.startswith('ok '):
